@@ -108,6 +108,11 @@ def profile_case(rec, rng, cid, scratch):
     pj = scratch / ("j_%d_%d.cfg" % tuple(cid))
     pl = scratch / ("l_%d_%d.cfg" % tuple(cid))
     dj = {k: d[k] for k in LEGACY_KEYS}
+    if rng.random() < .3:
+        # user training set given as a path (any characters a path may hold)
+        dj["rating training set"] = [
+            "/data/k=0.05Nm/ts_mine", "/home/user/my sets/ts_a=b=c",
+            "C:\\data\\ts_2021-01-29"][int(rng.integers(3))]
     if len(dj["preprocessing"]) < 2:
         dj["preprocessing"] = ["compute_tip_position", "correct_force_offset"]
     pj.write_text(json.dumps(dj))
@@ -120,7 +125,14 @@ def profile_case(rec, rng, cid, scratch):
         lines.append("%s = %s" % (k, v))
     pl.write_text("\n".join(lines) + "\n")
     case = {"id": cid, "kind": "profile", "profile": d}
-    a, b = profile.Profile(pj), profile.Profile(pl)
+    try:
+        a, b = profile.Profile(pj), profile.Profile(pl)
+    except BaseException as e:  # noqa
+        rec.evaluated(dg=("legacy-load", dj))
+        rec.violation("legacy/load-raises/" + type(e).__name__,
+                      "loading the profile (JSON / legacy form) raised %s: %s"
+                      % (type(e).__name__, str(e)[:80]), case)
+        return
     rec.event("legacy profiles compared with their JSON form")
     for k in dj:
         va, vb = a[k], b[k]
